@@ -150,11 +150,7 @@ def trial(scratch, scenario, n, r, res, imds):
         if not killed:
             a.kill()
     time.sleep(0.02)
-    trace = []
-    try:
-        trace = open(a.trace_path).read().splitlines()
-    except OSError:
-        pass
+    trace = common.merge_strace(a.trace_path)
     site, phase = "not-killed", "n/a"
     if killed:
         # the injected syscall is the last syscall line of the trace (strace prints it with "= ?")
@@ -258,7 +254,8 @@ def fault_trial(scratch, scenario, faults, r, res, imds):
     t0 = time.time()
     done = False
     while time.time() - t0 < 12 and not done:
-        done = ws.latched is not None and not any(ws.faults.get(s) for s in ("status", "acquire", "attest")) and any(k == "attest" and d.endswith(" ok") for _, k, d in ws.log) or \
+        done = ws.latched is not None and not any(ws.faults.get(s) for s in ("status", "acquire", "attest")) and any(k == "attest" and (d.endswith(" ok") or "response lost" in d) for _, k, d in ws.log) and \
+            (not any("response lost" in d for _, k, d in ws.log) or ws.count("status") >= [i for i, (_, k, d) in enumerate(ws.log) if "response lost" in d][0] and sum(1 for _, k, _ in ws.log[[i for i, (_, k, d) in enumerate(ws.log) if "response lost" in d][0]:] if k == "status") >= 2) or \
             (scenario == "local-key-present" and ws.count("status") >= len([f for f in faults if f[0] == "status"]) + 2)
         time.sleep(0.05)
     res["evaluations"] += 1
@@ -273,9 +270,16 @@ def fault_trial(scratch, scenario, faults, r, res, imds):
                 ok = False
         if not ok:
             viol("attested-before-stored", dict(wit, guid=g))
-    for g in [d.split()[0] for _, k, d in ws.log if k == "attest" and d.endswith(" ok")]:
+    for g in [d.split()[0] for _, k, d in ws.log if k == "attest" and (d.endswith(" ok") or d.endswith(" ok (response lost)"))]:
         if files.get(g) is None or files[g].get("key") != ws.issued.get(g):
             viol("host-latched-key-not-in-local-store", dict(wit, guid=g))
+    lost = [d.split()[0] for _, k, d in ws.log if k == "attest" and d.endswith(" ok (response lost)")]
+    if lost:
+        # once the host has latched a key (even if the guest never saw the answer) the guest must go on with that key, not ask for another
+        idx = max(i for i, (_, k, d) in enumerate(ws.log) if k == "attest" and d.endswith(" ok (response lost)"))
+        if any(k == "acquire" for _, k, _ in ws.log[idx + 1:]):
+            viol("new-key-requested-although-host-latched-key-was-stored", dict(wit, guid=lost[-1]))
+        done = done or (ws.latched == lost[-1] and ws.count("status") >= 3)
     if not done:
         viol("no-latch-after-host-faults-stopped", wit)
     res["counts"]["fault_trials"] = res["counts"].get("fault_trials", 0) + 1
@@ -313,7 +317,7 @@ def record(args, scratch):
             time.sleep(0.02)
         a.kill()
         ws.close()
-        lines = open(a.trace_path).read().splitlines()
+        lines = common.merge_strace(a.trace_path)
         ws_ = list(walk(lines))
         tid = next((w_[0] for w_ in ws_ if w_[1] == "connect" and "168.63.129.16" in w_[4]), None)
         mine = [w_ for w_ in ws_ if w_[0] == tid]
@@ -362,7 +366,8 @@ def run(tier, rep):
     faults = []
     F = [("status", {"kind": "status", "code": 500}), ("status", {"kind": "body", "body": "{oops"}), ("status", {"kind": "reset"}),
          ("acquire", {"kind": "status", "code": 500}), ("acquire", {"kind": "body", "body": '{"guid":"x"}'}), ("acquire", {"kind": "reset"}),
-         ("attest", {"kind": "status", "code": 500}), ("attest", {"kind": "status", "code": 403}), ("attest", {"kind": "reset"})]
+         ("attest", {"kind": "status", "code": 500}), ("attest", {"kind": "status", "code": 403}), ("attest", {"kind": "reset"}),
+         ("attest", {"kind": "latch-then-lose-response"})]
     for f in F:
         faults.append(("fresh", [f]))
     if tier == "thorough":
